@@ -85,3 +85,20 @@ Proof.
   intros. eexists. split; [apply go_write_eq|]. apply write_spec_io.
 Qed.
 Print Assumptions gen_C09_write_bytes.
+
+(* generated-code tie, command methods: the lines a sender hands to the queue through Privmsg,
+   Notice and Pong (the methods the correspondence senders use besides Raw) are a pure function
+   of the call's own arguments — the Gallina TRANSLATION of each method body equals the model's
+   emit for all arguments (Proofs/GenEqCmd.v).  A method that built its lines in state shared
+   between callers (a per-connection scratch buffer, say) would not translate to such a function. *)
+From Verif Require Import GenEqCmd.
+Theorem gen_C09_methods : forall cfg,
+  (forall t msg, go_client_Conn_Privmsg (cc_split_len cfg) t msg = emit to_upper MPrivmsg cfg [t; msg])
+  /\ (forall t msg, go_client_Conn_Notice (cc_split_len cfg) t msg = emit to_upper MNotice cfg [t; msg])
+  /\ (forall m, go_client_Conn_Pong m = emit to_upper MPong cfg [m])
+  /\ (forall x, go_client_Conn_Raw x = emit to_upper MRaw cfg [x]).
+Proof.
+  intro cfg. pose proof (go_commands_eq cfg) as H. cbv zeta in H.
+  decompose [and] H. repeat split; assumption.
+Qed.
+Print Assumptions gen_C09_methods.
